@@ -98,7 +98,7 @@ def run(ctx, replay):
             for k, v in rep["calls"].items():
                 calls["%s:%s" % (mode, k)] = calls.get("%s:%s" % (mode, k), 0) + v
             ctx.log("%s %d..%d: %d traces, %d calls, %d violation lines" % (mode, first, first + n, rep["traces"], rep["lines"], len(viol)))
-            if not quick:
+            if not quick and tf != first_file:
                 os.remove(tf)
     for need in ["ops:RevertToSnapshot", "ops:Suicide", "ops:CreateAccount", "ops:Finalise", "ops:EndBlock", "evm:RevertToSnapshot", "evm:Suicide", "evm:CreateAccount", "evm:AddLog", "evm:AddRefund", "evm:Result"]:
         if not calls.get(need):
@@ -119,6 +119,7 @@ def run(ctx, replay):
     else:
         raise vlib.ToolFailure("self-test: no line suitable for corruption")
     ctx.cov.update(states=states, transitions=trans, traces_validated_against_impl=traces, evaluations=lines_total, calls_by_mode=calls,
+                   samples=[{"mode": m, "seed": seed, "index": 0, "replay": "vevm %s --seed %d --from 0 --n 1" % (m, seed)} for m, _, _ in plan],
                    rule="seeded sequences of state-interface calls an interpreter can make (mutations of existing accounts, value to any address, creation of any address, nested snapshots and reverts in any order, finalisation between transactions, block commits) and seeded bytecode programs (SSTORE/SLOAD, BALANCE, EXTCODESIZE/HASH, LOG, CALL with value, CREATE with failing and succeeding init code, REVERT, SELFDESTRUCT, gas exhaustion) run by go-ethereum's interpreter; each is applied to go-ethereum's in-memory state and to the adapter over a chain state with transaction sessions and block commits; every call and answer of both is one trace line judged by TLC against StateDB.tla, execution results of the adapter are compared with the reference run",
                    **stats)
     ctx.assumptions += ["the recorder (harness/cmd/vevm) is the refinement mapping and is trusted; exercised by the corruption self-test",
